@@ -98,9 +98,9 @@ class World:
             for a in len_args(self, f):
                 if isinstance(a, tuple) and a[0] == "map":
                     t = a[1]
-                    if t.get_id() in seen:
+                    if ("m", t.get_id()) in seen:
                         continue
-                    seen.add(t.get_id())
+                    seen.add(("m", t.get_id()))
                     d_ = self.defs.get(t.decl().name())
                     filt = d_ is not None and "If(" in str(d_[2].arg(2))[:4] if False else False
                     # length_map (Lean: List.length_map); comprehensions with a filter only <=
@@ -115,9 +115,9 @@ class World:
                     continue
                 if isinstance(a, tuple):
                     t = a[1]
-                    if t.get_id() in seen:
+                    if ("c", t.get_id()) in seen:
                         continue
-                    seen.add(t.get_id())
+                    seen.add(("c", t.get_id()))
                     x, y = t.arg(0), t.arg(1)
                     out.append(S.len_l(t) == S.len_l(x) + S.len_l(y))
                     out.append(S.len_l(x) >= 0)
@@ -126,6 +126,8 @@ class World:
                         out.append(t == S.concat(x.arg(0), S.concat(x.arg(1), y)))
                     if z3.is_app(y) and y.decl().name() == "nil":
                         out.append(t == x)
+                    else:
+                        out.append(z3.Implies(S.is_nil(y), t == x))     # append_nil, guarded
                     continue
                 if a.get_id() in seen:
                     continue
@@ -460,6 +462,8 @@ class Exec:
         """v.name where v is a Py term."""
         S = self.S
         t = v.t
+        if name == "empty":
+            return Z(self.w.opaque("inspect.Parameter.empty"))
         owners = S.owners.get(name, [])
         if not owners:
             if name in ("ctx", "kind", "type_comment", "lineno", "col_offset"):
@@ -476,7 +480,7 @@ class Exec:
             known = None
         if known is None and not self.spec_mode:
             sorts_ = {S.field_is_list(c, name) for c in owners}
-            if len(sorts_) > 1:
+            if len(sorts_) > 1 or len(owners) <= 3:
                 ent = [c for c in owners if self.entails(S.rec(c)(t))]
                 if len(ent) >= 1:
                     known = ent[0]
@@ -590,9 +594,10 @@ class Exec:
                         "bool": P.is_PBool(t), "float": P.is_PFloat(t),
                         "list": P.is_PList(t), "tuple": P.is_PTuple(t),
                         "dict": P.is_PDict(t), "bytes": P.is_PBytes(t),
-                        "NoneType": P.is_PNone(t)}.get(n) if n in (
+                        "NoneType": P.is_PNone(t),
+                        "complex": self.w.ufun("is_complex", S.Py, z3.BoolSort())(t)}.get(n) if n in (
                     "str", "int", "bool", "float", "list", "tuple", "dict", "bytes",
-                    "NoneType") else self._unsup(f"isinstance type {n}")
+                    "NoneType", "complex") else self._unsup(f"isinstance type {n}")
         if isinstance(v, (Tup,)):
             return z3.BoolVal(c.kind == "type" and c.name == "tuple")
         if isinstance(v, CList):
@@ -610,17 +615,38 @@ class Exec:
             return env[name]
         if name in self.mod_consts:
             return self.lift_const(self.mod_consts[name])
+        if self.module_tree is not None:
+            # module-level NAME = (type, type, ...) tuples (used with isinstance)
+            for s_ in self.module_tree.body:
+                if isinstance(s_, ast.Assign) and len(s_.targets) == 1 and \
+                        isinstance(s_.targets[0], ast.Name) and s_.targets[0].id == name and \
+                        isinstance(s_.value, ast.Tuple):
+                    items = []
+                    for el in s_.value.elts:
+                        if isinstance(el, ast.Name):
+                            items.append(self.resolve_global(el.id))
+                        elif isinstance(el, ast.Call) and isinstance(el.func, ast.Name) and \
+                                el.func.id == "type" and len(el.args) == 1 and \
+                                isinstance(el.args[0], ast.Constant) and el.args[0].value is None:
+                            items.append(Ref("type", "NoneType"))
+                        else:
+                            raise Unsupported(f"module constant {name}: element form")
+                    return Tup(items)
         if name in self.imports:
             imp = self.imports[name]
             if imp[0] == "module":
                 return Ref("module", imp[1])
             mod, attr = imp[1], imp[2]
             if mod == "typing":
+                if attr == "get_type_hints":
+                    return Ref("libfunc", "typing.get_type_hints")
                 return Ref("typing", attr)
             return self.resolve_global(attr, frm=mod)
         return self.resolve_global(name)
 
     def resolve_global(self, name, frm=None):
+        if name == "__name__":
+            return Z(z3.StringVal("module"))
         if name in self.w.by_name:
             return Ref("func", self.w.by_name[name])
         if name in self.w.class_by_name:
@@ -629,7 +655,7 @@ class Exec:
             return Ref("spec", name)
         if name in _BUILTIN_EXC:
             return Ref("exc", name)
-        if name in ("str", "int", "bool", "float", "list", "tuple", "dict", "bytes"):
+        if name in ("str", "int", "bool", "float", "list", "tuple", "dict", "bytes", "complex"):
             return Ref("type", name)
         if name in self.w.builtins:
             return Ref("builtin", name)
@@ -740,7 +766,7 @@ class Exec:
         if isinstance(v, Z):
             s = v.t.sort()
             if s == self.S.Py:
-                if name in self.S.owners or name.startswith("_"):
+                if name in self.S.owners or name.startswith("_") or name == "empty":
                     return self.get_field(v, name, line)
                 return Bound(v, name)
             return Bound(v, name)
@@ -940,6 +966,10 @@ class Exec:
         if isinstance(a, Z) and isinstance(b, Z) and a.t.sort() == b.t.sort() == self.S.Py:
             if a.t.eq(b.t):
                 return z3.BoolVal(True)
+            for y in (a, b):
+                ys = z3.simplify(y.t)
+                if z3.is_app(ys) and ys.decl().name() == "PObj" and z3.is_int_value(ys.arg(0)):
+                    return a.t == b.t     # identity against a unique marker object
             # identity of two arbitrary objects is not expressible in term view
             raise Unsupported("`is` between two non-singleton objects (term view)")
         if isinstance(a, Ref) or isinstance(b, Ref):
@@ -1004,6 +1034,8 @@ class Exec:
                 and args and isinstance(args[0], (ast.GeneratorExp, ast.ListComp)):
             return self.w.builtins[f.name](self, [args[0]] + [self.ev(a, env) for a in args[1:]],
                                            {}, e, env)
+        if isinstance(f, Bound) and isinstance(f.obj, Obj) and f.obj.cls == "logger":
+            return Z(self.P.PNone)       # logging calls are dropped (their arguments too)
         if isinstance(e.func, ast.Attribute) and e.func.attr in (
                 "append", "remove", "pop", "extend", "insert", "clear") and not e.keywords:
             r = self.list_mutation(e, env)
